@@ -439,8 +439,8 @@ def _worker(task):
     # modules that never read the clock are not frozen at all (frozen_today swaps the module's datetime, which
     # changes isinstance(x, datetime.date) inside e.g. gs1_128 - a harness artefact, not library behaviour)
     dates = (DATES[:3] if quick else DATES) if clock_module(modname) else [None]
-    nbases = (2 if quick else 6)
-    budget = (90 if quick else 300)
+    nbases = (2 if quick else 4)
+    budget = (90 if quick else 200)
     valid_seen = 0
     for today in dates:
         with frozen(today):
@@ -452,7 +452,7 @@ def _worker(task):
 def search(seed, tier):
     getters = discover()
     tasks = []
-    nchunks = 1 if tier == 'quick' else 3
+    nchunks = 1 if tier == 'quick' else 2
     for modname in sorted(getters):
         for chunk in range(nchunks):
             tasks.append((seed, tier, modname, getters[modname], chunk, nchunks))
